@@ -115,6 +115,7 @@ def generate(outdir, seed, n_samples=None, n_loci=None, multi_sample_bam=None, b
     multi = rng.random() < 0.35 if multi_sample_bam is None else multi_sample_bam
     groups = [samples] if multi else [[s] for s in samples]
     bams = {}
+    rg_ids = {}  # read-group ID -> (sample, bam path), for --read-group-field ID
     qn = 0
     for gi, group in enumerate(groups):
         rgs = []
@@ -193,6 +194,8 @@ def generate(outdir, seed, n_samples=None, n_loci=None, multi_sample_bam=None, b
         pysam.index(path)
         for s in group:
             bams[s] = path
+        for rg in rgs:
+            rg_ids[rg["ID"]] = (rg["SM"], path)
     ploidy_file = os.path.join(outdir, "ploidy.txt")
     with open(ploidy_file, "w") as f:
         for s in samples:
@@ -207,6 +210,7 @@ def generate(outdir, seed, n_samples=None, n_loci=None, multi_sample_bam=None, b
         "locus_snvs": locus_snvs,
         "samples": samples,
         "bams": bams,
+        "rg_ids": rg_ids,
         "bam_files": sorted(set(bams.values())),
         "ploidy": ploidy,
         "ploidy_file": ploidy_file,
